@@ -14,14 +14,14 @@ VARIABLES t, in,
 vars == <<t, in, txQuiet, rxQuiet, kaSince, recSince>>
 
 Bool == {TRUE, FALSE}
-NoRec == [n |-> 1, en |-> FALSE, rx |-> FALSE, pkt |-> FALSE, tx |-> FALSE, ka |-> FALSE, rec |-> FALSE]
+NoRec == [n |-> 1, en |-> FALSE, rx |-> FALSE, pkt |-> FALSE, tx |-> FALSE, ka |-> FALSE, rec |-> FALSE, rst |-> FALSE]
 Init == t = TmInit /\ in = NoRec /\ txQuiet = 0 /\ rxQuiet = 0 /\ kaSince = FALSE /\ recSince = FALSE
 
 Sat(x, m) == IF x > m THEN m ELSE x
 
 Cycle(en, rx, pkt, tx) ==
     \E ka \in Bool, rec \in Bool :
-       LET r == [n |-> 1, en |-> en, rx |-> rx, pkt |-> pkt, tx |-> tx, ka |-> ka, rec |-> rec] IN
+       LET r == [n |-> 1, en |-> en, rx |-> rx, pkt |-> pkt, tx |-> tx, ka |-> ka, rec |-> rec, rst |-> FALSE] IN
        /\ TmFailing(t, r) = "ok"
        /\ t' = TmNext(t, r)
        /\ in' = r
